@@ -756,10 +756,41 @@ class Interp:
         return [(st, "fall", None)]
 
     def s_Delete(self, stmt, st):
+        res: Results = [(None, st)]
         for t in stmt.targets:
             if isinstance(t, ast.Name):
-                st.locals.pop(t.id, None)
-        return [(st, "fall", None)]
+                res = self.bind(res, lambda _, s, t=t: (s.locals.pop(t.id, None), [(None, s)])[1])
+            elif isinstance(t, ast.Subscript):
+                # del xs[i] / del xs[a:b] / del d[k]
+                def one(_, s, t=t):
+                    def with_base(base, s1):
+                        if isinstance(t.slice, ast.Slice):
+                            parts = [p if p is not None else ast.Constant(value=None) for p in (t.slice.lower, t.slice.upper, t.slice.step)]
+                            return self.bind(self.eval_list(parts, s1), lambda b, s2: self._del_item(base, slice(*b) if all(x is None or (isinstance(x, int) and not isinstance(x, bool)) for x in b) else Unknown("slice"), s2, t))
+                        return self.bind(self.eval(t.slice, s1), lambda idx, s2: self._del_item(base, idx, s2, t))
+                    return self.bind(self.eval(t.value, s), with_base)
+                res = self.bind(res, one)
+            else:
+                for _, s in res:
+                    s.note(f"unsupported del target {ast.unparse(t)[:40]}")
+        return self._from_results(res)
+
+    def _del_item(self, base, idx, st, node) -> Results:
+        if isinstance(base, Ref):
+            h = st.obj(base)
+            if h.kind == "list" and not h.setlike and (isinstance(idx, slice) or (isinstance(idx, int) and not isinstance(idx, bool))):
+                try:
+                    del h.items[idx]
+                except IndexError:
+                    return [(Raised("IndexError", node), st)]
+                return [(None, st)]
+            if h.kind == "dict" and self.B.hashable(idx) and is_concrete(idx):
+                if idx in h.fields:
+                    del h.fields[idx]
+                    return [(None, st)]
+                return [(Raised("KeyError", node), st)]
+        st.note(f"del on {type(base).__name__}[{type(idx).__name__}] not modelled")
+        return [(None, st)]
 
     def s_Assign(self, stmt, st):
         def f(v, s):
